@@ -123,6 +123,102 @@ void seek_sequence(const Bytes &content, File::Mode rm, const std::vector<SeekOp
     }
 }
 
+
+// ---- (e) sessions: every sequence of calls on ONE File object over two paths, including re-open without close.
+// Reference: a map path -> bytes on which a write takes effect when it is issued (with a single stream per file, stdio buffering must be
+// invisible), open() closes the stream held before it opens the new one, "w" truncates at open, "a" writes at the end whatever the position is.
+enum EOp { E_OPEN, E_WRITE, E_FLUSH, E_CLOSE, E_SEEK0, E_SEEK1, E_SIZE, E_TELL, E_READALL, E_READ1 };
+struct SessOp { int kind, a, b; };       // E_OPEN: a = path index, b = mode index (ALLMODES); E_WRITE: a = piece index
+const File::Mode ALLMODES[] = {File::Mode::Read, File::Mode::ReadText, File::Mode::Write, File::Mode::WriteText, File::Mode::Append, File::Mode::AppendText};
+const char *ALLMODE_NAMES[] = {"Read", "ReadText", "Write", "WriteText", "Append", "AppendText"};
+const char *PIECES[] = {"ab", "\n"};
+std::string eop_str(const SessOp &o) {
+    switch (o.kind) {
+    case E_OPEN: return fmt("open%c:%s", 'P' + o.a, ALLMODE_NAMES[o.b]); case E_WRITE: return fmt("write%d", o.a); case E_FLUSH: return "flush"; case E_CLOSE: return "close";
+    case E_SEEK0: return "seek0"; case E_SEEK1: return "seek1"; case E_SIZE: return "size"; case E_TELL: return "tell"; case E_READALL: return "readall"; default: return "read1";
+    }
+}
+std::vector<SessOp> session_alphabet() {
+    std::vector<SessOp> a;
+    for (int m : {2, 4, 0, 3, 5, 1}) for (int p = 0; p < 2; p++) a.push_back(SessOp{E_OPEN, p, m});
+    for (int i = 0; i < 2; i++) a.push_back(SessOp{E_WRITE, i, 0});
+    for (int k : {E_FLUSH, E_CLOSE, E_SEEK0, E_SEEK1, E_SIZE, E_TELL, E_READALL, E_READ1}) a.push_back(SessOp{k, 0, 0});
+    return a;
+}
+struct SessModel {
+    bool exists[2] = {false, false}; Bytes data[2];
+    bool open = false; int path = 0, mode = 0; long pos = 0; bool pos_known = true;     // pos of an append stream is unspecified until the first write or seek
+    bool reading() const { return mode < 2; } bool appending() const { return mode >= 4; }
+};
+// returns -1, or the index of the first op whose precondition does not hold (the history is not part of the space)
+int session(const std::vector<SessOp> &ops, const std::string &dir, int initial, std::set<std::string> *states) {
+    std::string paths[2] = {dir + "/P", dir + "/Q"};
+    SessModel m;
+    for (int i = 0; i < 2; i++) { fs::remove(paths[i]); if (initial >> i & 1) { spit(paths[i], i ? "Q\n" : "xyz"); m.exists[i] = true; m.data[i] = i ? "Q\n" : "xyz"; } }
+    int step = 0; int invalid = -1;
+    {
+        File f;
+        for (auto &o : ops) {
+            step++;
+            std::string w = fmt("step %d (%s)", step, eop_str(o).c_str());
+            if (o.kind != E_OPEN && !m.open) { invalid = step - 1; break; }
+            if ((o.kind == E_WRITE || o.kind == E_FLUSH) && m.reading()) { invalid = step - 1; break; }
+            if ((o.kind == E_READALL || o.kind == E_READ1) && !m.reading()) { invalid = step - 1; break; }
+            shm->transitions++;
+            switch (o.kind) {
+            case E_OPEN: {
+                bool rd = o.b < 2, threw = false; int type = -1;
+                try { f.open(tulz::Path(paths[o.a]), ALLMODES[o.b]); } catch (const tulz::Exception &e) { threw = true; type = e.type; }
+                if (rd && !m.exists[o.a]) {
+                    if (!threw || type != tulz::Path::NotFound) bad("sess:not-found", w + ": opening a missing file for reading did not throw NotFound");
+                    if (fs::exists(paths[o.a])) bad("sess:created", w + ": a failed open for reading created the file");
+                    if (f.isOpen() != m.open) bad("sess:open-state", w + ": a failed open changed isOpen()");
+                    break;
+                }
+                if (threw) { bad("sess:open-threw", w + ": open threw although the file can be opened"); break; }
+                m.open = true; m.path = o.a; m.mode = o.b; m.pos = 0; m.pos_known = !m.appending();
+                if (o.b == 2 || o.b == 3) { m.data[o.a].clear(); m.exists[o.a] = true; }
+                if (o.b >= 4) m.exists[o.a] = true;
+                if (!f.isOpen()) bad("sess:open-state", w + ": isOpen() false after a successful open");
+                if (f.getMode() != ALLMODES[o.b]) bad("sess:mode", w + ": getMode() differs from the mode passed to open");
+                break;
+            }
+            case E_WRITE: {
+                Bytes piece = PIECES[o.a]; size_t n = f.write(piece);
+                if (n != piece.size()) bad("sess:write-count", w + fmt(": write of %zu bytes returned %zu", piece.size(), n));
+                Bytes &d = m.data[m.path];
+                if (m.appending()) { d += piece; m.pos = (long)d.size(); m.pos_known = true; }
+                else { if ((size_t)m.pos > d.size()) d.resize((size_t)m.pos, '\0'); d.replace((size_t)m.pos, std::min(piece.size(), d.size() - (size_t)m.pos), piece); m.pos += (long)piece.size(); }
+                break;
+            }
+            case E_FLUSH: if (f.flush() != 0) bad("sess:flush", w + ": flush() failed"); break;
+            case E_CLOSE: f.close(); m.open = false; if (f.isOpen()) bad("sess:open-state", w + ": isOpen() true after close()"); break;
+            case E_SEEK0: case E_SEEK1: { long t = o.kind == E_SEEK0 ? 0 : 1; if (f.seek(t, File::Origin::Start) != 0) bad("sess:seek", w + ": seek failed"); m.pos = t; m.pos_known = true; break; }
+            case E_SIZE: {
+                size_t sz = f.size();
+                if (sz != m.data[m.path].size()) bad("sess:size", w + fmt(": size() == %zu, the file has %zu bytes (mode %s)", sz, m.data[m.path].size(), ALLMODE_NAMES[m.mode]));
+                if (m.pos_known && f.tell() != m.pos) bad("sess:size-moved", w + fmt(": size() moved the position from %ld to %ld", m.pos, f.tell()));
+                break;
+            }
+            case E_TELL: if (m.pos_known) { long t = f.tell(); if (t != m.pos) bad("sess:tell", w + fmt(": tell() == %ld, expected %ld (mode %s)", t, m.pos, ALLMODE_NAMES[m.mode])); } break;
+            case E_READALL: { std::string got = f.readStr(); if (got != m.data[m.path]) bad("sess:read", w + fmt(": readStr() returned %s, the file holds %s", hex(got).c_str(), hex(m.data[m.path]).c_str())); m.pos = (long)m.data[m.path].size(); break; }
+            case E_READ1: { char c = 0; size_t n = f.read(&c, 1, 1); const Bytes &d = m.data[m.path]; size_t wantn = (size_t)m.pos < d.size() ? 1 : 0;
+                if (n != wantn || (wantn && c != d[(size_t)m.pos])) bad("sess:read1", w + fmt(": read(buf,1,1) at position %ld returned %zu byte(s) %02x", m.pos, n, (unsigned char)c)); m.pos += (long)wantn; break; }
+            }
+            if (states) states->insert(fmt("%d%d%d|%ld|", (int)m.open, m.path, m.mode, m.pos) + hex(m.data[0]) + "|" + hex(m.data[1]));
+        }
+        // the File object is destroyed here: whatever it still holds must reach the disk
+    }
+    if (invalid >= 0) return invalid;
+    for (int i = 0; i < 2; i++) {
+        bool ex = fs::exists(paths[i]);
+        if (ex != m.exists[i]) bad("sess:disk-exists", fmt("after the session file %c %s, expected %s", 'P' + i, ex ? "exists" : "is missing", m.exists[i] ? "to exist" : "no file"));
+        else if (ex && slurp(paths[i]) != m.data[i]) bad("sess:disk-content", fmt("after the session file %c holds %s, expected %s (every write takes effect in call order; Write truncates when it opens; Append adds at the end)", 'P' + i, hex(slurp(paths[i])).c_str(), hex(m.data[i]).c_str()));
+    }
+    return -1;
+}
+std::string sess_name(int initial, const std::vector<SessOp> &ops) { std::string s = fmt("session initial=%d ops=", initial); for (auto &o : ops) s += " " + eop_str(o); return s; }
+
 Bytes pattern(size_t n) { Bytes b(n, 0); for (size_t i = 0; i < n; i++) b[i] = (char)((i * 131 + (i >> 8) * 7 + 13) & 0xff); return b; }
 
 void large(size_t size, size_t cut, const std::string &path) {
@@ -226,12 +322,37 @@ void explore() {
         shm->states += states.size();
         if (firstop == 5) sample("seek rm=0 ops= seek(-1,Current) readn2 size");
     });
+    // (e) every session of <= sdepth calls on one File object over two paths (one existing, one missing; thorough: also both existing)
+    int sdepth = thorough() ? 5 : 4;
+    auto salpha = session_alphabet();
+    for (int initial : thorough() ? std::vector<int>{1, 3} : std::vector<int>{1}) for (int firstop = 0; firstop < 12; firstop++) tasks.push_back([=] {
+        std::string dir = root + fmt("/e%d-%d", initial, firstop); fs::create_directories(dir);
+        std::set<std::string> states;
+        for (int len = 1; len <= sdepth; len++) {
+            std::vector<int> ix(len, 0); ix[0] = firstop;
+            for (;;) {
+                if (deadline_passed()) { shm->exhaustive = 0; break; }
+                std::vector<SessOp> ops; for (int i = 0; i < len; i++) ops.push_back(salpha[ix[i]]);
+                mark(sess_name(initial, ops));
+                int inv = session(ops, dir, initial, &states);
+                if (inv < 0) { shm->evaluations++; shm->nontrivial++; }
+                int i = inv >= 0 ? inv : len - 1;                      // an invalid op: skip every history with this prefix
+                for (int j = i + 1; j < len; j++) ix[j] = 0;
+                while (i >= 1 && ++ix[i] == (int)salpha.size()) ix[i--] = 0;
+                if (i < 1) break;
+            }
+        }
+        shm->states += states.size();
+        if (firstop == 0 && initial == 1) sample("session initial=1 ops= openP:Write write0 openP:Write size");
+    });
     parallel(tasks);
     fs::remove_all(root);
     shm->validated = shm->transitions;
     sx::detail(fmt("(a) every byte string of length <= %d over {00,FF,0D,0A,'a',1A} x every split into successive write() calls (mode Write), plus each string in every write/append mode x {no file, existing 'xy'} x {write(ptr), write(Array), write(string)}; "
                    "read back in Read and ReadText through read(), readStr(), size() and read(buf,1,n) loops for n=1..3; (b) patterned files of 4095/4096/4097/65537/1MiB+3 bytes written in two pieces cut at 8 positions; "
-                   "(c) every sequence of length <= %d over seek(-1..2, Start/Current/End), tell, size, read(buf,1,0..2), read() on a 3-byte file in both read modes against a byte-vector-with-position model; (d) NotFound / NotFile errors", maxlen, depth));
+                   "(c) every sequence of length <= %d over seek(-1..2, Start/Current/End), tell, size, read(buf,1,0..2), read() on a 3-byte file in both read modes against a byte-vector-with-position model; (d) NotFound / NotFile errors; "
+                   "(e) every session of <= %d calls on ONE File object over two paths: open(path, any of the six modes) incl. re-open without close, write, flush, close, seek, size, tell, readStr, read(buf,1,1), then destruction; "
+                   "sizes, positions and read results are compared after every call and both files on disk at the end with a path->bytes model in which writes take effect in call order", maxlen, depth, sdepth));
 }
 
 void replay(const std::string &hist) {
@@ -245,6 +366,11 @@ void replay(const std::string &hist) {
         auto alpha = seek_alphabet(); std::vector<SeekOp> ops; std::stringstream ss(hist.substr(hist.find("ops=") + 4)); std::string tok;
         while (ss >> tok) for (auto &a : alpha) if (sop_str(a) == tok) ops.push_back(a);
         Bytes c("\xff\x00\x0a", 3); spit(path, c); seek_sequence(c, rm ? File::Mode::ReadText : File::Mode::Read, ops, path, nullptr);
+    } else if (hist.compare(0, 8, "session ") == 0) {
+        int initial = 1; sscanf(hist.c_str(), "session initial=%d", &initial);
+        auto alpha = session_alphabet(); std::vector<SessOp> ops; std::stringstream ss(hist.substr(hist.find("ops=") + 4)); std::string tok;
+        while (ss >> tok) for (auto &a : alpha) if (eop_str(a) == tok) ops.push_back(a);
+        session(ops, root, initial, nullptr);
     } else violation("replay:parse", "cannot parse " + hist);
     fs::remove_all(root);
 }
